@@ -422,13 +422,19 @@ theorem not_mem_safelyQuoteBy {f : Char → Bool} {c : Char} (hc : Sep c) (hq : 
     · rw [e] at hc; have := hc.2; rw [hw.1] at this; cases this
     · rw [e] at hc; have := hc.2; rw [hw.2] at this; cases this
   | stray =>
-    simp only [quoteTokBy, List.mem_singleton] at ht'
-    subst ht'
-    simp only [renderTok, List.mem_cons, List.not_mem_nil, or_false] at hch
-    rcases hch with e | e | e
-    · exact hc.1 e
-    · rw [e] at hc; exact absurd hc.2 (by decide)
-    · rw [e] at hc; exact absurd hc.2 (by decide)
+    simp only [quoteTokBy] at ht'
+    split at ht'
+    · simp only [List.mem_singleton] at ht'
+      subst ht'
+      simp only [renderTok, List.mem_singleton] at hch
+      exact hc.1 hch
+    · simp only [List.mem_singleton] at ht'
+      subst ht'
+      simp only [renderTok, List.mem_cons, List.not_mem_nil, or_false] at hch
+      rcases hch with e | e | e
+      · exact hc.1 e
+      · rw [e] at hc; exact absurd hc.2 (by decide)
+      · rw [e] at hc; exact absurd hc.2 (by decide)
 
 theorem not_mem_safelyQuote {c : Char} (hc : Sep c) (hq : quoteSafe c = false) (s : Str) :
     c ∉ safelyQuote s := by
